@@ -1222,6 +1222,24 @@ func (e *Exec) lacksByte(st *State, s *StringVal, b byte) bool {
 			return true
 		}
 	}
+	// the same fact stated before a precondition fixed the string's length to a constant
+	if m := constFacts(st.PC); len(m) > 0 {
+		for _, f := range st.PC {
+			if f.Op != "app" || f.Name != want.Name || len(f.Args) != len(want.Args) {
+				continue
+			}
+			same := true
+			for i, a := range f.Args {
+				if a != want.Args[i] && e.C.Subst(a, m) != want.Args[i] {
+					same = false
+					break
+				}
+			}
+			if same {
+				return true
+			}
+		}
+	}
 	return false
 }
 
